@@ -66,6 +66,10 @@ func flattenBody(p *packages.Package, fd *ast.FuncDecl, subst map[string]string,
 		case *ast.BlockStmt:
 			walk(x.List)
 		case *ast.IfStmt:
+			if m := mergeNestedIf(x); m != nil {
+				walkStmt(m)
+				return
+			}
 			// `if !c { A } else { B }` is flattened as `if c { B } else { A }`
 			bare, neg := stripNot(x.Cond)
 			if neg && x.Else != nil {
@@ -193,6 +197,7 @@ func flattenBody(p *packages.Package, fd *ast.FuncDecl, subst map[string]string,
 		}
 	}
 	walk = func(list []ast.Stmt) {
+		list = sinkUpdateIntoReturn(p, list)
 		for i := 0; i < len(list); i++ {
 			// `var x T; if c { x = B } else { x = A }` is `x := A; if c { x = B }`
 			if ds, ok := list[i].(*ast.DeclStmt); ok && i+1 < len(list) {
@@ -281,4 +286,81 @@ func lcsDiff(a, b []flatStmt) (onlyA, onlyB []flatStmt) {
 	onlyA = append(onlyA, a[i:]...)
 	onlyB = append(onlyB, b[j:]...)
 	return
+}
+
+// sinkUpdateIntoReturn: a list ending in `if c { v = X }; return E(v)` reads
+// the same as `if !c { return E(v) }; return E(X)`; both spellings are
+// brought to the second form (the expression trees are shared, not copied,
+// so every identifier keeps its type information).
+func sinkUpdateIntoReturn(p *packages.Package, list []ast.Stmt) []ast.Stmt {
+	n := len(list)
+	if n < 2 {
+		return list
+	}
+	ret, ok := list[n-1].(*ast.ReturnStmt)
+	is, ok2 := list[n-2].(*ast.IfStmt)
+	if !ok || !ok2 || is.Else != nil || is.Init != nil || len(is.Body.List) != 1 || len(ret.Results) == 0 {
+		return list
+	}
+	as, ok := is.Body.List[0].(*ast.AssignStmt)
+	if !ok || as.Tok != token.ASSIGN || len(as.Lhs) != 1 || len(as.Rhs) != 1 {
+		return list
+	}
+	vid, ok := as.Lhs[0].(*ast.Ident)
+	if !ok {
+		return list
+	}
+	v := p.TypesInfo.ObjectOf(vid)
+	if v == nil {
+		return list
+	}
+	var subst func(e ast.Expr) (ast.Expr, bool)
+	subst = func(e ast.Expr) (ast.Expr, bool) {
+		switch x := e.(type) {
+		case *ast.Ident:
+			if p.TypesInfo.ObjectOf(x) == v {
+				return as.Rhs[0], true
+			}
+		case *ast.ParenExpr:
+			if r, ch := subst(x.X); ch {
+				return &ast.ParenExpr{X: r}, true
+			}
+		case *ast.CallExpr:
+			changed := false
+			args := make([]ast.Expr, len(x.Args))
+			for i, a := range x.Args {
+				r, ch := subst(a)
+				args[i] = r
+				changed = changed || ch
+			}
+			if changed {
+				return &ast.CallExpr{Fun: x.Fun, Lparen: x.Lparen, Args: args, Ellipsis: x.Ellipsis, Rparen: x.Rparen}, true
+			}
+		case *ast.BinaryExpr:
+			l, c1 := subst(x.X)
+			r, c2 := subst(x.Y)
+			if c1 || c2 {
+				return &ast.BinaryExpr{X: l, Op: x.Op, OpPos: x.OpPos, Y: r}, true
+			}
+		case *ast.UnaryExpr:
+			if r, ch := subst(x.X); ch {
+				return &ast.UnaryExpr{Op: x.Op, OpPos: x.OpPos, X: r}, true
+			}
+		}
+		return e, false
+	}
+	any := false
+	res := make([]ast.Expr, len(ret.Results))
+	for i, e := range ret.Results {
+		r, ch := subst(e)
+		res[i] = r
+		any = any || ch
+	}
+	if !any {
+		return list
+	}
+	out := append([]ast.Stmt{}, list[:n-2]...)
+	out = append(out, &ast.IfStmt{If: is.If, Cond: &ast.UnaryExpr{Op: token.NOT, X: is.Cond}, Body: &ast.BlockStmt{List: []ast.Stmt{&ast.ReturnStmt{Return: ret.Return, Results: ret.Results}}}})
+	out = append(out, &ast.ReturnStmt{Return: ret.Return, Results: res})
+	return out
 }
